@@ -678,6 +678,105 @@ func getterSweep(p reflect.Value, keep func() bool, out *[]interface{}) {
 	}
 }
 
+// deepTargets collects pointers to the structures nested in v (fields, the first
+// slice elements, pointees; depth-limited) whose types declare methods.
+func deepTargets(v reflect.Value, depth int, out *[]reflect.Value) {
+	if depth > 4 || len(*out) >= 24 || !v.IsValid() {
+		return
+	}
+	switch v.Kind() {
+	case reflect.Ptr:
+		if !v.IsNil() {
+			deepTargets(v.Elem(), depth, out)
+		}
+	case reflect.Interface:
+		if !v.IsNil() {
+			deepTargets(v.Elem(), depth+1, out)
+		}
+	case reflect.Slice, reflect.Array:
+		for i := 0; i < v.Len() && i < 3; i++ {
+			deepTargets(v.Index(i), depth+1, out)
+		}
+	case reflect.Struct:
+		if v.CanAddr() && v.Type().Name() != "" {
+			if p := v.Addr(); p.CanInterface() && len(declaredMethods(p.Type())) > 0 {
+				*out = append(*out, p)
+			}
+		}
+		for i := 0; i < v.NumField(); i++ {
+			if v.Type().Field(i).PkgPath == "" {
+				deepTargets(v.Field(i), depth+1, out)
+			}
+		}
+	}
+}
+
+// deepUse calls a few seeded methods of the structures nested in root.
+func deepUse(root reflect.Value, r *Rng, out *[]interface{}) {
+	var targets []reflect.Value
+	deepTargets(root, 0, &targets)
+	if len(targets) == 0 {
+		return
+	}
+	for k, n := 0, 2+r.Intn(5); k < n; k++ {
+		tg := targets[r.Intn(len(targets))]
+		ms := declaredMethods(tg.Type())
+		mi := ms[r.Intn(len(ms))]
+		mm := tg.Type().Method(mi)
+		et := tg.Type().Elem()
+		args, ok := SynthArgs(r, mm.Type, RegMethodParams[relPkg(et)+"."+et.Name()+"."+mm.Name], 1, et.Name()+"."+mm.Name)
+		if !ok {
+			continue
+		}
+		func() {
+			defer func() {
+				if pv := recover(); pv != nil {
+					if vsimrt.IsAbort(pv) || vsimrt.IsRunaway(pv) {
+						panic(pv)
+					}
+					*out = append(*out, fmt.Sprint(et.Name(), ".", mm.Name, " panic:", pv))
+				}
+			}()
+			*out = append(*out, et.Name()+"."+mm.Name)
+			*out = append(*out, ifaces(tg.Method(mi).Call(args))...)
+		}()
+	}
+}
+
+// setterSweep calls a seeded subset of the Set* methods declared on the IE p points
+// to, with synthesised arguments; panics are outcomes.
+func setterSweep(p reflect.Value, r *Rng, density int, out *[]interface{}) {
+	t := p.Type()
+	et := t.Elem()
+	pkg := et.PkgPath()
+	rel := pkg[strings.LastIndex(pkg, "/")+1:]
+	for m := 0; m < t.NumMethod(); m++ {
+		mm := t.Method(m)
+		if !strings.HasPrefix(mm.Name, "Set") {
+			continue
+		}
+		params, declared := RegMethodParams[rel+"."+et.Name()+"."+mm.Name]
+		if !declared || !r.Chance(density) {
+			continue
+		}
+		args, ok := SynthArgs(r, mm.Type, params, 1, mm.Name)
+		if !ok {
+			continue
+		}
+		func() {
+			defer func() {
+				if pv := recover(); pv != nil {
+					if vsimrt.IsAbort(pv) || vsimrt.IsRunaway(pv) {
+						panic(pv)
+					}
+					*out = append(*out, fmt.Sprint(mm.Name, " panic:", pv))
+				}
+			}()
+			p.Method(m).Call(args)
+		}()
+	}
+}
+
 // ---- building instances ----
 
 func ifaces(vs []reflect.Value) []interface{} {
@@ -920,10 +1019,23 @@ func (c *Catalogue) buildCodec(in *Inst, r *Rng) {
 		}
 	case "reencode":
 		in.Args = []interface{}{&data}
+		// half of the time: decode, MODIFY the decoded message through the setters of its
+		// IEs, encode - what a network function does when it forwards a message. A
+		// decoder that hands out values it shares with other decoded messages (interned
+		// IEs, table rows) is harmless until somebody writes to "their own" message.
+		tweak := r.Bool()
+		sub := r.Fork()
 		in.Do = func() []interface{} {
 			m := nas.NewMessage()
 			if err := m.PlainNasDecode(&data); err != nil {
 				return []interface{}{err}
+			}
+			var tw []interface{}
+			if tweak {
+				rr := *sub
+				for _, ie := range collectIEs(reflect.ValueOf(m)) {
+					setterSweep(ie, &rr, 40, &tw)
+				}
 			}
 			b, err := m.PlainNasEncode()
 			if err != nil {
@@ -932,7 +1044,7 @@ func (c *Catalogue) buildCodec(in *Inst, r *Rng) {
 			m2 := nas.NewMessage()
 			err2 := m2.PlainNasDecode(&b)
 			b2, err3 := m2.PlainNasEncode()
-			return []interface{}{m, b, m2, err2, b2, err3}
+			return []interface{}{m, b, m2, err2, b2, err3, tw}
 		}
 	}
 }
@@ -1187,6 +1299,12 @@ func (c *Catalogue) buildRoundtrip(in *Inst, r *Rng) {
 			return
 		}
 		in.Args = []interface{}{recv.Interface()}
+		// half of the time the decoded value is then USED: methods of the structures
+		// nested in it (fields, slice elements), with synthesised arguments - a parser
+		// that equips what it builds with shared helpers (one table, one allocator for
+		// all decoded values) is harmless until those are called
+		deep := r.Bool()
+		sub := r.Fork()
 		in.Do = func() []interface{} {
 			rs := mm.Call(nil)
 			out := ifaces(rs)
@@ -1200,6 +1318,10 @@ func (c *Catalogue) buildRoundtrip(in *Inst, r *Rng) {
 			}
 			rs2 := um.Call([]reflect.Value{rs[0]})
 			out = append(out, ifaces(rs2)...)
+			if deep {
+				rr := *sub
+				deepUse(back, &rr, &out)
+			}
 			out = append(out, back.Interface())
 			return out
 		}
